@@ -72,7 +72,9 @@ _state = {}
 # ------------------------------------------------------------------------------------------------
 
 def generate(ctx):
-    return [gen_query.generate()]
+    path = gen_query.generate()
+    ctx.notes.extend(gen_query.NOTES)
+    return [path]
 
 
 # ------------------------------------------------------------------------------------------------
@@ -1049,6 +1051,17 @@ def stream_mapping(ctx, programs):
                 disagree(ctx, 'mapping/raises', f'{text} on {name}: {type(e).__name__}: {e}', {'kind': 'match', 'smarts': text, 'mol': wire.mol_to_ints(m)})
                 continue
             hits_seen += bool(maps)
+            # the default (compiled, here pyx2py-rendered) path: informational only — agreement of the two paths is property C09
+            if _state.setdefault('cython_cases', 0) < (300 if ctx.quick else 3000) and len(m) <= 40:
+                _state['cython_cases'] += 1
+                try:
+                    cm = list(q.get_mapping(m, automorphism_filter=False))
+                    same = sorted(map(sorted, (x.items() for x in cm))) == sorted(map(sorted, (x.items() for x in maps)))
+                except Exception as e:
+                    same = False
+                ctx.dist('map:compiled-path-agrees' if same else 'map:compiled-path-differs')
+                if not same and len([x for x in ctx.notes if x.startswith('compiled')]) < 3:
+                    ctx.notes.append(f'compiled (rendered) matcher differs from the Python path for {text} on {name} (C09 domain; informational)')
             if len(qn) == 1:
                 real = 'ok ' + ' '.join(map(str, sorted(mp[qn[0]] for mp in maps)))
                 op = 'm1'
